@@ -8,27 +8,27 @@ open Orx Orx.IW
 /-- **Mutual exclusion, all schedules**: for every fused wrapped iterator (panicking ones included), all
 request programs with chunk sizes ≥ 1 and skips anywhere, and every interleaving, two distinct threads are
 never both in the critical section … -/
-theorem mutex_all (s : Script) (hf : Fused s) (ps : Nat → List Req) (hok : ∀ t, ∀ r ∈ ps t, ReqOk r)
+theorem mutex_all (s : Script) (ps : Nat → List Req) (hok : ∀ t, ∀ r ∈ ps t, ReqOk r)
     (σ : List Nat) (hW : (run s σ (init ps)).R < W) (t u : Nat) (htu : t ≠ u) :
     ¬ (((run s σ (init ps)).th t).pc.inCS = true ∧ ((run s σ (init ps)).th u).pc.inCS = true) :=
-  fun ⟨ht, hu⟩ => mutex (inv_reach s hf ps hok σ hW) t u htu ht hu
+  fun ⟨ht, hu⟩ => mutex (inv_reach s ps hok σ hW) t u htu ht hu
 
 /-- … in particular never both executing the wrapped iterator's `next()`. -/
-theorem next_never_overlaps (s : Script) (hf : Fused s) (ps : Nat → List Req) (hok : ∀ t, ∀ r ∈ ps t, ReqOk r)
+theorem next_never_overlaps (s : Script) (ps : Nat → List Req) (hok : ∀ t, ∀ r ∈ ps t, ReqOk r)
     (σ : List Nat) (hW : (run s σ (init ps)).R < W) (t u : Nat) (htu : t ≠ u) :
     ¬ (((run s σ (init ps)).th t).pc.inNext = true ∧ ((run s σ (init ps)).th u).pc.inNext = true) := by
   intro ⟨ht, hu⟩
   have h1 : ∀ pc : Pc, pc.inNext = true → pc.inCS = true := by intro pc; cases pc <;> simp [Pc.inNext, Pc.inCS]
-  exact mutex_all s hf ps hok σ hW t u htu ⟨h1 _ ht, h1 _ hu⟩
+  exact mutex_all s ps hok σ hW t u htu ⟨h1 _ ht, h1 _ hu⟩
 
 /-- the `k`-th call of `next()` is made by the holder of the ticket the yielded counter points at, and while no
 `None` was returned it produces exactly position `begin + |acc|`: the wrapped iterator sees a sequential use -/
-theorem calls_in_position_order (s : Script) (hf : Fused s) (ps : Nat → List Req) (hok : ∀ t, ∀ r ∈ ps t, ReqOk r)
+theorem calls_in_position_order (s : Script) (ps : Nat → List Req) (hok : ∀ t, ∀ r ∈ ps t, ReqOk r)
     (σ : List Nat) (hW : (run s σ (init ps)).R < W) (t b n : Nat)
     (hcs : ((run s σ (init ps)).th t).pc.inCS = true) (htk : ((run s σ (init ps)).th t).pc.ticket = some (b, n))
     (hnn : NoNoneBefore s (run s σ (init ps)).P) :
     (run s σ (init ps)).P = b + ((run s σ (init ps)).th t).pc.acc.length :=
-  (inv_reach s hf ps hok σ hW).pcs t b n hcs htk hnn
+  (inv_reach s ps hok σ hW).pcs t b n hcs htk hnn
 
 /-- the orderings the current source uses on the `yielded` counter (extracted on every run) -/
 def srcOrds : Ords :=
@@ -44,12 +44,12 @@ theorem ord_faa_release : srcOrds.yFaa.isRel = true ∧ Orx.Generated.Orderings.
 /-- **Happens-before, all schedules, with the orderings of the current source**: every entry into and exit from
 the wrapped iterator's `next()` happens-after the previous use of the iterator (C11 release/acquire through the
 `yielded` counter; vector clocks over SC interleavings). No data race on the `UnsafeCell<Iter>`. -/
-theorem hb_chain (s : Script) (hf : Fused s) (ps : Nat → List Req) (hok : ∀ t, ∀ r ∈ ps t, ReqOk r) (σ : List Nat)
+theorem hb_chain (s : Script) (ps : Nat → List Req) (hok : ∀ t, ∀ r ∈ ps t, ReqOk r) (σ : List Nat)
     (hW : (run s σ (init ps)).R < W) (t : Nat)
     (huse : ∃ r b acc, ((hrun srcOrds s σ (hinit ps)).core.th t).pc = .cs r b acc ∨
                        ((hrun srcOrds s σ (hinit ps)).core.th t).pc = .ins r b acc) :
     (hrun srcOrds s σ (hinit ps)).last.le ((hrun srcOrds s σ (hinit ps)).clk t) :=
-  no_race srcOrds ord_current_acquire ord_faa_release.1 s hf ps hok σ hW t huse
+  no_race srcOrds ord_current_acquire ord_faa_release.1 s ps hok σ hW t huse
 
 /-- the bookkeeping layer does not change the protocol: its core is the plain run -/
 theorem hb_layer_is_conservative (s : Script) (ps : Nat → List Req) (σ : List Nat) :
@@ -60,7 +60,7 @@ nothing; 2 threads, one `next` each: thread 1 enters `next()` without thread 0's
 theorem C07_relaxed_load_races :
     let o : Ords := { yLoad := .relaxed, yFaa := .acqrel }
     let s : Script := fun i => if i < 2 then .some (i + 7) else .none
-    let h := hrun o s [0,0,0,0,0,0,0, 1,1,1,1] (hinit fun t => if t < 2 then [.single false] else [])
+    let h := hrun o s [0,0,0,0,0,0,0,0, 1,1,1,1,1] (hinit fun t => if t < 2 then [.single false] else [])
     (∃ acc, (h.core.th 1).pc = .cs (.single false) 1 acc) ∧ ¬ (h.last 0 ≤ h.clk 1 0) := by
   refine ⟨⟨[], by decide⟩, by decide⟩
 
